@@ -402,7 +402,7 @@ def run_case(case):
     elif fam == "nan_limits":
         # a NaN limit means "no limit": same problem with -inf / +inf
         spec = base_spec(rng, str(rng.choice(["lin", "nl", "both"])),
-                         limit_kinds=("upper", "lower", "two"))
+                         limit_kinds=("upper", "lower", "two", "eq"))
         s2 = copy.deepcopy(spec)
         changed = 0
         for key in ("lin", "nl"):
@@ -490,6 +490,13 @@ def run_case(case):
         spec["bounds"] = {"lb": lb.tolist(), "ub": ub.tolist(),
                           "form": "Bounds", "patterns": pats}
         spec["options"]["scale"] = fam != "fixed"
+        if rng.random() < 0.25:
+            # progress printing (stdout is discarded) on runs that reach
+            # their first reductions of the resolution
+            spec["options"]["disp"] = True
+            spec["options"]["radius_init"] = 0.2
+            spec["options"]["radius_final"] = 1e-3
+            spec["options"]["maxfev"] = 150
         if "nb_points" in spec["options"]:
             nred = gen.reduced_dim(lb, ub)
             spec["options"]["nb_points"] = int(min(
@@ -504,8 +511,12 @@ def run_case(case):
             tags.append("default_budgets")
         ra = mrun.run(spec)
         pb = ra.run.pb
-        if pb is None or ra.exc is not None or pb.n == 0:
+        if pb is None or pb.n == 0 or (isinstance(ra.exc, ValueError)
+                                       and not ra.run.evals):
             return e2e.record(case, [], tags=tags + ["skip"], skipped=True)
+        # (if the first statement raised after the problem was built, the
+        # second one is still run: one raising and the other returning is a
+        # difference)
         rb = transformed_run(spec, ra)
         settings_compare(ra, rb, viols, info)
         kind = {"fixed": "fixed variables vs reduced problem",
